@@ -10,7 +10,15 @@ CONSTANTS Mode, Export
 VARIABLES stage, arg, lay, start, withD
 vars == <<stage, arg, lay, start, withD>>
 
-Pieces == <<
+\* Mode "stdin": file bodies, assembled the same way.  The statement is about BYTES: the same bytes
+\* as a file and on stdin give the same result, whatever blank space surrounds the lines.
+BodyPieces == <<
+  {"", " ", "\n", "\t\n"},                               \* in front
+  {"a", "b c"},                                          \* first line
+  {"", " ", "\t", "\n", " \n", "\r\n", "\nd", "\nd ", "\n##!<"},   \* its end and a second line
+  {"", "\n", "\n\n", " \n", "\n ", "\r\n", "\f", "\n\t\n"}         \* the end of the file
+>>
+ArgPieces == <<
   {"", "x", "0"},                                                       \* junk in front
   {"932100", "93210", "9321000", "", "93210a"},                          \* the digits
   {"", "-chain0", "-chain1", "-chain7", "-chain255", "-chain256", "-chain300", "-chain65536",
@@ -18,6 +26,7 @@ Pieces == <<
   {"", ".ra", ".raw", ".ra.ra", ".yaml", "."},                           \* extension
   {"", "x", " "}                                                        \* junk behind
 >>
+Pieces == IF Mode = "stdin" THEN BodyPieces ELSE ArgPieces
 
 \* directory layouts: which directories contain a regex-assembly directory
 A == <<"crs">>   B == <<"crs", "sub", "inner">>
@@ -31,7 +40,7 @@ Starts  == { <<>>, A, B, <<"crs", "rules">>, <<"crs", "sub">>, <<"crs", "sub", "
 Init == /\ stage = 0 /\ arg = ""
         /\ IF Mode = "root" THEN lay \in Layouts /\ start \in Starts /\ withD \in BOOLEAN
            ELSE lay = {} /\ start = <<>> /\ withD = FALSE
-Next == /\ Mode = "args" /\ stage < Len(Pieces)
+Next == /\ Mode \in {"args", "stdin"} /\ stage < Len(Pieces)
         /\ \E p \in Pieces[stage + 1] : arg' = arg \o p /\ stage' = stage + 1
         /\ UNCHANGED <<lay, start, withD>>
 Spec == Init /\ [][Next]_vars
@@ -50,5 +59,6 @@ RootCase == LET r == IF withD THEN Root(lay, start)
 
 ExportCase == Export =>
     /\ (Mode = "args" /\ stage = Len(Pieces)) => PrintT(ToJson([arg |-> arg, ok |-> R.ok, file |-> R.file, id |-> R.id, k |-> R.k]))
+    /\ (Mode = "stdin" /\ stage = Len(Pieces)) => PrintT(ToJson([body |-> arg]))
     /\ Mode = "root" => PrintT(ToJson(RootCase))
 =============================================================================
